@@ -226,8 +226,10 @@ CHECKS.update({
              "vacuity); spec/proofs/LockProof.tla is a TLAPS proof (37 obligations) that MutualExclusion holds for any number "
              "of threads and locks. The real StdLock is driven by 2..16 threads x up to 2000 read-modify-write closures of varying "
              "duration on 1-3 locks; events sequenced inside the closure are validated by TraceLock (Enter only when free, "
-             "Read of the model's value, Return of the closure's own value, final value = number of closures, all threads join).",
-        note="real schedules are sampled; exhaustive only on the model.",
+             "Read of the model's value, Return of the closure's own value, final value = number of closures, all threads join); "
+             "nested applies on two different locks by 1 / 4 / 16 threads are checked against their sequential meaning "
+             "(TraceLock!NestedEv). Thorough: 4 threads in the model (2.4 M states), up to 64 threads on the real lock.",
+        note="real schedules are sampled; exhaustive only on the model; the small-step model has one lock per thread at a time.",
         technique="TLA+ lock model checked with TLC (safety + liveness) + TLC trace validation of contended runs"),
 })
 
